@@ -282,6 +282,28 @@ def rule_AT1(ctx, tier):
             rr.fail("span-broken:get..%s" % callee,
                     "the locator-cache guard taken for the look-up is not held when `%s` is called: a block connected in between updates the cache and queries the DB before this appointment is stored, so its breach is never noticed" % callee.split("::", 1)[-1],
                     where=b.line_of(bb))
+    # "already triggered" is decided inside the same critical section: a version of the appointment that passed the check
+    # before another one was handed to the Responder goes on to the cache, finds the dispute, and sends a second, conflicting
+    # penalty; when that bounces the appointment is deleted and the live tracker of the first cascades with it
+    ht = [bb for bb, t in b.calls() if (call_target(t) or "").endswith("Responder::has_tracker")]
+    if not ht:
+        rr.fail("no-tracker-check", "Watcher::add_appointment does not ask the Responder whether the appointment already has a tracker", where=b.span)
+    for bb in ht:
+        if C["locator_cache"] in bl.classes_at_term(bb):
+            rr.ok("has_tracker consulted under the locator-cache lock")
+        else:
+            rr.fail("tracker-check-outside-cache-lock", "`Responder::has_tracker` is consulted in add_appointment before the locator-cache lock is taken: a second version of the appointment arriving while the first is being answered (by the block thread, or by another request that found the dispute in the cache) passes the check, sends a conflicting penalty, and when that is rejected `delete_appointments` removes the appointment together with the tracker of the penalty that was broadcast", where=b.line_of(bb))
+    # ... and the Responder does not answer the same appointment twice: handle_breach looks the uuid up (under the locks it holds
+    # for the whole hand-over, AT6) before anything is sent
+    hb = P.bodies.get(HANDLE_BREACH)
+    if hb is not None:
+        sends = [x for x, t in hb.calls() if (call_target(t) or "").endswith("Carrier::send_transaction")]
+        looks = [x for x, t in hb.calls() if (call_target(t) or "").endswith(("DBM::load_tracker", "Responder::has_tracker", "DBM::tracker_exists"))]
+        hbb = ctx.pf.called_before(hb)
+        if sends and all(any(n.endswith(("DBM::load_tracker", "Responder::has_tracker", "DBM::tracker_exists")) for n in hbb.get(x, set())) for x in sends):
+            rr.ok("handle_breach looks for an existing tracker before it sends")
+        else:
+            rr.fail("second-response-sent", "`Responder::handle_breach` never looks the uuid up before sending: an appointment that already has a tracker (the block thread answered it while a re-submission was waiting for the locks) is answered a second time with whatever penalty the newer blob decrypts to", where=hb.span)
     # both arms of the look-up store something
     if not any(c == STORE_APPT or c in DBM_STORE for _, c in stores):
         rr.fail("no-plain-store", "no store call after the cache look-up on the not-triggered arm", where=b.span)
